@@ -592,3 +592,16 @@ CORE_WORDS = {
            'miljard', 'en', 'komma', 'eerste', 'tweede', 'twintigste', 'honderdste', 'achtste'],
 }
 CORE_OTHERS = ['xyz', 'Abc', '12', 'a-b']
+
+
+# one word per role for the quick tier of the stream checks C09, C10, C11 (zero, unit, unit, tens, hundred, conjunction,
+# decimal separator, small ordinal, large ordinal, a linking word, an ordinary word)
+QUICK_WORDS = {
+    'en': ['zero', 'one', 'nine', 'twenty', 'hundred', 'and', 'point', 'first', 'twentieth', 'ah', 'xyz'],
+    'fr': ['zéro', 'un', 'neuf', 'vingt', 'cent', 'et', 'virgule', 'premier', 'vingtième', 'euh', 'xyz'],
+    'es': ['cero', 'uno', 'nueve', 'veinte', 'cien', 'y', 'coma', 'primero', 'vigésimo', 'pues', 'xyz'],
+    'pt': ['zero', 'um', 'nove', 'vinte', 'cem', 'e', 'vírgula', 'primeiro', 'vigésimo', 'então', 'xyz'],
+    'it': ['zero', 'uno', 'nove', 'venti', 'cento', 'e', 'virgola', 'primo', 'ventesimo', 'ehm', 'xyz'],
+    'de': ['null', 'eins', 'neun', 'zwanzig', 'hundert', 'und', 'komma', 'erste', 'zwanzigste', 'aber', 'xyz'],
+    'nl': ['nul', 'een', 'negen', 'twintig', 'honderd', 'en', 'komma', 'eerste', 'twintigste', 'dus', 'xyz'],
+}
